@@ -181,18 +181,6 @@ theorem order_matches_requested_direction_fixed : RequestedDirection sortMapFixe
 
 /-! ## Non-vacuity and the concrete counterexample -/
 
-theorem map_some_inj {α : Type} : ∀ (l1 l2 : List α), l1.map some = l2.map some → l1 = l2 := by
-  intro l1
-  induction l1 with
-  | nil => intro l2 h; cases l2 with
-    | nil => rfl
-    | cons _ _ => simp at h
-  | cons x xs ih => intro l2 h; cases l2 with
-    | nil => simp at h
-    | cons y ys =>
-      simp only [List.map_cons, List.cons.injEq, Option.some.injEq] at h
-      rw [h.1, ih ys h.2]
-
 /-- Two transfers of one signer `ab` at heights 1 and 2. -/
 def demo : List TxRes :=
   [⟨1, 0, [1, 1], some [171], none, false⟩, ⟨2, 0, [2, 2], some [171], some [205], false⟩,
@@ -232,7 +220,7 @@ theorem order_matches_requested_direction_fails : ¬ RequestedDirection sortMapA
   injection ha with ha
   injection ha with ha _
   have hinj : full = (a1 ++ ⟨1, 0, [1, 1], some [171], none, false⟩ :: a2 ++ ⟨2, 0, [2, 2], some [171], some [205], false⟩ :: a3).take 10000 :=
-    map_some_inj _ _ ha
+    Indexer.map_some_inj _ _ ha
   have hlen2 : (a1 ++ (⟨1, 0, [1, 1], some [171], none, false⟩ : TxRes) :: a2 ++ ⟨2, 0, [2, 2], some [171], some [205], false⟩ :: a3).take 10000
       = a1 ++ ⟨1, 0, [1, 1], some [171], none, false⟩ :: a2 ++ ⟨2, 0, [2, 2], some [171], some [205], false⟩ :: a3 := by
     apply List.take_of_length_le
